@@ -217,11 +217,11 @@ Section RoundTrip.
     - destruct caps; [reflexivity|discriminate].
     - destruct caps as [|c caps]; [discriminate|].
       inversion Hok as [|? ? Hm Hok']; subst. cbn in Hm. destruct Hm as [Hp Hb].
-      cbn [wire flat_map map combine recv_seq expected].
+      unfold recv_seq. cbn [wire flat_map map combine recv_conn expected].
       change (flat_map (fun '(h, b, p, _) => send h b p) ms) with (wire ms).
       rewrite <- app_assoc, recv_send by assumption.
       destruct (delivered_is_ok H B h b p c (wire ms ++ tail)) as (p' & i & k & E).
-      rewrite E. f_equal. apply IH; [assumption|]. simpl in Hl. lia.
+      rewrite E. f_equal. apply (IH caps tail); [assumption|]. simpl in Hl. lia.
   Qed.
 
 End RoundTrip.
@@ -473,4 +473,80 @@ Qed.
 Example length_flip_rejected :
   recv byte byte tgdec tgdec
     (xor_at (send byte byte tgenc tgenc 1 2 [5; 6; 7]) 16 1) 0 true = RErrCrc ([5; 6; 7] ++ le32 (crc32c [5; 6; 7])).
+Proof. vm_compute. reflexivity. Qed.
+
+(* ------------------------------------------------------------------ *)
+(* after a rejected message nothing further is delivered (fix cbee0a8) *)
+
+Section Reject.
+  Variables H B : Type.
+  Variable gdec_h : list byte -> gres H.
+  Variable gdec_b : list byte -> gres B.
+
+  Definition is_ok (r : rres H B) : bool := match r with ROk _ _ _ _ _ _ => true | _ => false end.
+
+  (* in a list of receive results: once a message was rejected with a checksum mismatch or an unread payload,
+     no later result is a delivery *)
+  Fixpoint silent_after_reject (l : list (rres H B)) : Prop :=
+    match l with
+    | [] => True
+    | r :: t => (is_reject H B r = true -> Forall (fun x => is_ok x = false) t) /\ silent_after_reject t
+    end.
+
+  Lemma recv_conn_broken s bufs :
+    Forall (fun x => is_ok x = false) (recv_conn H B gdec_h gdec_b true s bufs).
+  Proof. destruct bufs as [|[c i] bufs]; simpl; repeat constructor. Qed.
+
+  Lemma silent_no_ok l : Forall (fun x => is_ok x = false) l -> silent_after_reject l.
+  Proof.
+    induction l as [|r t IH]; intros F; simpl; [exact I|].
+    inversion F; subst. split; [intros _; assumption|apply IH; assumption].
+  Qed.
+
+  Lemma recv_conn_silent : forall bufs broken s,
+    silent_after_reject (recv_conn H B gdec_h gdec_b broken s bufs).
+  Proof.
+    induction bufs as [|[c i] bufs IH]; intros broken s; [exact I|].
+    destruct broken.
+    - apply silent_no_ok, recv_conn_broken.
+    - cbn [recv_conn].
+      destruct (recv H B gdec_h gdec_b s c i) eqn:E; cbn [silent_after_reject is_reject];
+        (split; [try discriminate|]); try apply IH; try exact I.
+      + intros _. apply recv_conn_broken.
+      + intros _. apply recv_conn_broken.
+  Qed.
+End Reject.
+
+(* the connection as it was before the fix: every body-level error kept reading *)
+Section Unrepaired.
+  Variables H B : Type.
+  Variable gdec_h : list byte -> gres H.
+  Variable gdec_b : list byte -> gres B.
+  Fixpoint recv_seq_unrepaired (s : list byte) (bufs : list (N * bool)) : list (rres H B) :=
+    match bufs with
+    | [] => []
+    | (cap, isb) :: bufs' =>
+        let r := recv H B gdec_h gdec_b s cap isb in
+        r :: match r with
+             | ROk _ _ _ _ _ rest => recv_seq_unrepaired rest bufs'
+             | RErrBody rest | RErrCrc rest | RErrNotBulk rest => recv_seq_unrepaired rest bufs'
+             | RErrHdr _ | RStall => []
+             end
+    end.
+End Unrepaired.
+
+(* C16-B, variant (b), on the one-byte codec: ONE message (1, 2, payload = the bytes of a frame "3 4 no payload") is
+   sent; a one-bit burst hits its header checksum field.  The unrepaired connection rejects it and then delivers
+   message (3, 4), which was never sent; the repaired connection delivers nothing after the rejection. *)
+Definition c16b_payload : list byte := send byte byte tgenc tgenc 3 4 [].
+Definition c16b_stream : list byte := xor_at (send byte byte tgenc tgenc 1 2 c16b_payload) 48 1.
+
+Example c16b_unrepaired_delivers_unsent :
+  recv_seq_unrepaired byte byte tgdec tgdec c16b_stream [(0, true); (0, true)]
+  = [RErrCrc (c16b_payload ++ le32 (crc32c c16b_payload)); ROk 3 4 [] false false (le32 (crc32c c16b_payload))].
+Proof. vm_compute. reflexivity. Qed.
+
+Example c16b_repaired_silent :
+  recv_seq byte byte tgdec tgdec c16b_stream [(0, true); (0, true)]
+  = [RErrCrc (c16b_payload ++ le32 (crc32c c16b_payload)); RErrHdr (c16b_payload ++ le32 (crc32c c16b_payload))].
 Proof. vm_compute. reflexivity. Qed.
